@@ -2011,7 +2011,13 @@ class DiskObjectStore(PackBasedObjectStore):
         for base in os.listdir(self.path):
             if len(base) != 2:
                 continue
-            for rest in os.listdir(os.path.join(self.path, base)):
+            try:
+                rests = os.listdir(os.path.join(self.path, base))
+            except (FileNotFoundError, NotADirectoryError):
+                # The fan-out directory was emptied and removed since the
+                # scan above (a concurrent repack / prune-packed)
+                continue
+            for rest in rests:
                 sha = os.fsencode(base + rest)
                 if not valid_hexsha(sha):
                     continue
